@@ -26,7 +26,9 @@ from ..utils import (
     arg_value_error_msg,
     arg_value_error_range,
     get_terminal_name_version,
+    lock_tty,
     query_terminal,
+    read_tty,
     write_tty,
 )
 from .common import GraphicsImage
@@ -305,10 +307,7 @@ class KittyImage(GraphicsImage):
             # Kitty graphics query + terminal attribute query
             # The second query is to speed up the query since most (if not all)
             # terminals should support it and most terminals treat queries as FIFO
-            response = query_terminal(
-                ctlseqs.KITTY_SUPPORT_QUERY_b + ctlseqs.DA1_b,
-                lambda s: not s.endswith(b"c"),
-            )
+            response = _query_support()
 
             # Not supported if it doesn't respond to either query
             # or responds to the second but not the first
@@ -487,6 +486,23 @@ class KittyImage(GraphicsImage):
                 fill,
             )
         )
+
+
+@lock_tty
+def _query_support() -> bytes | None:
+    """Sends the graphics support query (along with a terminal attribute query) and
+    returns the response.
+    """
+    # The terminal's response to the queries is not read all at once
+    response = query_terminal(
+        ctlseqs.KITTY_SUPPORT_QUERY_b + ctlseqs.DA1_b,
+        # The response might contain a "c"; can't stop reading at "c"
+        lambda s: not s.endswith(ctlseqs.CSI_b),
+    )
+    if response:
+        read_tty()  # The rest of the response to DA1
+
+    return response
 
 
 @dataclass
